@@ -567,12 +567,192 @@ fn run_mode2(c: &[u64]) -> Option<Vec<u64>> {
     Some(out)
 }
 
+// ---- mode 4: a whole message-based session, the listener's replies regrouped into messages
+
+/// mirror of `uvi_dec` (unsigned_varint::decode::u64: at most 10 bytes, minimal encodings)
+fn uvi_dec(b: &[u8]) -> Option<(u64, usize)> {
+    let mut acc: u128 = 0;
+    for (i, x) in b.iter().enumerate() {
+        acc += ((*x & 0x7f) as u128) << (7 * i as u32);
+        if *x < 128 {
+            if *x == 0 && i > 0 {
+                return None;
+            }
+            return Some((acc as u64, i + 1));
+        }
+        if i == 9 {
+            return None;
+        }
+    }
+    None
+}
+
+/// the varint-length-prefixed frames of a payload (what does not parse stays as one last piece)
+fn split_frames(mut b: &[u8]) -> Vec<Vec<u8>> {
+    let mut out = vec![];
+    while !b.is_empty() {
+        match uvi_dec(b) {
+            Some((l, n)) if (b.len() - n) as u64 >= l => {
+                let k = n + l as usize;
+                out.push(b[..k].to_vec());
+                b = &b[k..];
+            }
+            _ => {
+                out.push(b.to_vec());
+                break;
+            }
+        }
+    }
+    out
+}
+
+/// messages made of the frames (coq/C03/WGroup.v `group`)
+fn group(gs: &[u64], frames: &[Vec<u8>]) -> Vec<Vec<u8>> {
+    let mut out = vec![];
+    let mut i = 0;
+    let mut g = gs.iter();
+    while i < frames.len() {
+        match g.next() {
+            None => {
+                out.push(frames[i..].concat());
+                i = frames.len();
+            }
+            Some(0) => out.push(vec![]),
+            Some(&k) => {
+                let j = (i as u64).saturating_add(k).min(frames.len() as u64) as usize;
+                out.push(frames[i..j].concat());
+                i = j;
+            }
+        }
+    }
+    out
+}
+
+fn register_code(st: &mut WebRtcDialerState, payload: Vec<u8>) -> u64 {
+    use litep2p::error::NegotiationError as NE;
+    match st.register_response(payload) {
+        Ok(HandshakeResult::NotReady) => 0,
+        Ok(HandshakeResult::Succeeded(_)) => 1,
+        Ok(HandshakeResult::Rejected) => 2,
+        Err(NE::ParseError(_)) => 11,
+        Err(NE::MultistreamSelectError(NegotiationError::Failed)) => 12,
+        Err(NE::StateMismatch) => 13,
+        Err(NE::MultistreamSelectError(NegotiationError::ProtocolError(_))) => 14,
+        Err(_) => 19,
+    }
+}
+
+fn run_mode4(c: &[u64]) -> Option<Vec<u64>> {
+    let mut cur = Cur { c, i: 1 };
+    let pool = cur.pool()?;
+    let pi = cur.n()?;
+    let fi = cur.list()?;
+    let li = cur.list()?;
+    let ng = cur.n()? as usize;
+    if ng > c.len() {
+        return None;
+    }
+    let mut gss = vec![];
+    for _ in 0..ng {
+        gss.push(cur.list()?);
+    }
+    if !cur.end() {
+        return None;
+    }
+    let proto = pname(pool.get(pi as usize)?)?;
+    let fbs: Vec<ProtocolName> =
+        pick(&pool, &fi)?.iter().map(|n| pname(n)).collect::<Option<_>>()?;
+    let ls = pick(&pool, &li)?;
+    let names: Vec<ProtocolName> = ls.iter().map(|n| pname(n)).collect::<Option<_>>()?;
+    let mut out = vec![1];
+    let (mut st, mut proposal) = match WebRtcDialerState::propose(proto, fbs) {
+        Ok((st, msg)) => {
+            out.push(0);
+            enc_bytes(&mut out, &msg);
+            (st, msg)
+        }
+        Err(_) => {
+            out.push(1);
+            return Some(out);
+        }
+    };
+    let mut header_received = false;
+    let mut round = 0usize;
+    loop {
+        // the listener's channel: on_inbound_opening_channel_data
+        let (accepted, reply) =
+            match webrtc_listener_negotiate(names.clone(), proposal.clone().into(), header_received) {
+                Ok(ListenerSelectResult::Accepted { protocol, message }) => {
+                    let i = ls.iter().position(|n| n.as_slice() == protocol.as_bytes())?;
+                    out.extend([0, i as u64]);
+                    enc_bytes(&mut out, &message);
+                    (true, message.to_vec())
+                }
+                Ok(ListenerSelectResult::Rejected { message }) => {
+                    out.push(1);
+                    enc_bytes(&mut out, &message);
+                    (false, message.to_vec())
+                }
+                Ok(ListenerSelectResult::PendingProtocol { message }) => {
+                    out.push(2);
+                    enc_bytes(&mut out, &message);
+                    (false, message.to_vec())
+                }
+                Err(e) => {
+                    use litep2p::error::{Error, NegotiationError as NE};
+                    let code = match e {
+                        Error::NegotiationError(NE::ParseError(_)) => 1,
+                        Error::NegotiationError(NE::MultistreamSelectError(_)) => 2,
+                        Error::InvalidData => 3,
+                        _ => 9,
+                    };
+                    out.extend([3, code]);
+                    return Some(out);
+                }
+            };
+        header_received = true;
+        // the dialer's channel: on_outbound_opening_channel_data, one call per message
+        let empty = vec![];
+        let msgs = group(gss.get(round).unwrap_or(&empty), &split_frames(&reply));
+        let mut codes = vec![];
+        for m in msgs {
+            let code = register_code(&mut st, m);
+            codes.push(code);
+            if code != 0 {
+                break;
+            }
+        }
+        out.push(codes.len() as u64);
+        out.extend(codes.iter().copied());
+        if accepted || codes.last() != Some(&2) {
+            return Some(out);
+        }
+        match st.propose_next_fallback() {
+            Ok(None) => {
+                out.extend([1, 0]);
+                return Some(out);
+            }
+            Ok(Some(m)) => {
+                out.extend([1, 1]);
+                enc_bytes(&mut out, &m);
+                proposal = m;
+            }
+            Err(_) => {
+                out.extend([1, 2]);
+                return Some(out);
+            }
+        }
+        round += 1;
+    }
+}
+
 fn run_case(c: &[u64]) -> Option<Vec<u64>> {
     match c.first()? {
         0 => run_mode0(c),
         1 => run_mode1(c),
         2 => run_mode2(c),
         3 => run_mode3(c),
+        4 => run_mode4(c),
         5 => fallback::run(c),
         6 => run_mode6(c),
         7 => run_mode7(c),
@@ -1559,6 +1739,137 @@ fn gen_mode2(rng: &mut Rng) -> Vec<u64> {
 }
 
 
+// ---- message-based sessions under every grouping of the listener's reply into messages
+
+/// grouping scripts for a reply of `n` frames (n = 2: header echo + verdict, n = 1: verdict):
+/// every split of the frames into messages, with and without empty messages in between
+fn groupings(n: usize) -> Vec<Vec<u64>> {
+    if n == 2 {
+        vec![vec![], vec![2], vec![1], vec![1, 1], vec![1, 0, 1], vec![1, 0, 0, 1]]
+    } else {
+        vec![vec![], vec![1], vec![0, 1]]
+    }
+}
+
+fn name_lists(maxlen: usize) -> Vec<Vec<u64>> {
+    let mut all: Vec<Vec<u64>> = vec![vec![]];
+    let mut frontier: Vec<Vec<u64>> = vec![vec![]];
+    for _ in 0..maxlen {
+        let mut next = vec![];
+        for l in &frontier {
+            for x in 0..3u64 {
+                let mut m = l.clone();
+                m.push(x);
+                next.push(m);
+            }
+        }
+        all.extend(next.iter().cloned());
+        frontier = next;
+    }
+    all
+}
+
+/// EXHAUSTIVE small scope for the message-based variant: every dialer list (main :: fallbacks,
+/// 1..=dmax names) x every listener list (0..=lmax names) over {/a, /a/b, /c} x every grouping of
+/// the first reply (2 frames) x every grouping of the later replies (1 frame).
+/// Mode 4: the real WebRtcDialerState against the real webrtc_listener_negotiate.
+/// Mode 2: the real WebRtcDialerState against a SCRIPTED legal listener (the frames of the legal
+/// answers, computed here, delivered under the grouping; propose_next_fallback after every na).
+fn small_scope_webrtc(dmax: usize, lmax: usize, lmax2: usize) -> Vec<Vec<u64>> {
+    let pool: Vec<Vec<u8>> = vec![b"/a".to_vec(), b"/a/b".to_vec(), b"/c".to_vec()];
+    let mut h = HEADER.to_vec();
+    h.push(b'\n');
+    let mut out = vec![];
+    for d in name_lists(dmax).iter().filter(|d| !d.is_empty()) {
+        for l in name_lists(lmax) {
+            for g0 in groupings(2) {
+                for (k1, g1) in groupings(1).into_iter().enumerate() {
+                    if d.len() == 1 && k1 > 0 {
+                        continue;
+                    }
+                    // mode 4
+                    let mut c = vec![4];
+                    push_pool(&mut c, &pool);
+                    c.push(d[0]);
+                    push_list(&mut c, &d[1..]);
+                    push_list(&mut c, &l);
+                    c.push(d.len() as u64);
+                    push_list(&mut c, &g0);
+                    for _ in 1..d.len() {
+                        push_list(&mut c, &g1);
+                    }
+                    out.push(c);
+                    if l.len() > lmax2 {
+                        continue;
+                    }
+                    // mode 2: the legal listener for the set `l`, scripted
+                    let mut ops: Vec<Option<Vec<u8>>> = vec![];
+                    for (round, x) in d.iter().enumerate() {
+                        let mut frames = vec![];
+                        if round == 0 {
+                            frames.push(wmsg(&h));
+                        }
+                        let supported = l.contains(x);
+                        if supported {
+                            let mut line = pool[*x as usize].clone();
+                            line.push(b'\n');
+                            frames.push(wmsg(&line));
+                        } else {
+                            frames.push(wmsg(b"na\n"));
+                        }
+                        for m in group(if round == 0 { &g0 } else { &g1 }, &frames) {
+                            ops.push(Some(m));
+                        }
+                        if supported {
+                            break;
+                        }
+                        ops.push(None);
+                    }
+                    let mut c = vec![2];
+                    push_pool(&mut c, &pool);
+                    c.push(d[0]);
+                    push_list(&mut c, &d[1..]);
+                    c.push(ops.len() as u64);
+                    for op in ops {
+                        match op {
+                            Some(m) => {
+                                c.push(0);
+                                push_bytes(&mut c, &m);
+                            }
+                            None => c.push(1),
+                        }
+                    }
+                    out.push(c);
+                }
+            }
+        }
+    }
+    out
+}
+
+fn gen_mode4(rng: &mut Rng) -> Vec<u64> {
+    let pool = catalog(rng, false, true);
+    let mut c = vec![4];
+    push_pool(&mut c, &pool);
+    c.push(rng.below(pool.len() as u64));
+    let nf = rng.below(4);
+    // fallbacks mostly distinct from each other so that several rounds happen
+    let fi: Vec<u64> = (0..nf).map(|_| rng.below(pool.len() as u64)).collect();
+    push_list(&mut c, &fi);
+    let nl = rng.below(5);
+    let li: Vec<u64> = (0..nl).map(|_| rng.below(pool.len() as u64)).collect();
+    push_list(&mut c, &li);
+    let ng = rng.below(6);
+    c.push(ng);
+    for _ in 0..ng {
+        let k = rng.below(4);
+        let gs: Vec<u64> = (0..k).map(|_| rng.pick(&[0u64, 1, 1, 1, 2, 3])).collect();
+        push_list(&mut c, &gs);
+    }
+    c
+}
+
+
 fn gen_mode3(rng: &mut Rng) -> Vec<u64> {
     let side = rng.chance(50);
     let lazy = side && rng.chance(15);
@@ -1823,6 +2134,10 @@ pub fn main(args: &Args) {
     for c in small_scope9(2, if thorough { 4 } else { 2 }) {
         out.emit(&c, &exec(&c));
     }
+    // message-based variant: every grouping of the listener's reply frames into messages
+    for c in if thorough { small_scope_webrtc(3, 2, 2) } else { small_scope_webrtc(2, 2, 1) } {
+        out.emit(&c, &exec(&c));
+    }
     for i in 0..ncases {
         let mut r = rng.fork();
         // a request between two real nodes (loopback TCP / WebSocket): a few per run
@@ -1844,6 +2159,13 @@ pub fn main(args: &Args) {
     }
     // the differential stream against the reference implementation: a fraction of the cases,
     // from its own generator so that the other modes' cases do not move
+    // random message-based sessions (mode 4), again from their own generator
+    let mut rng4 = Rng::new(seed ^ 0x4444_1234);
+    for _ in 0..ncases / 25 {
+        let mut r = rng4.fork();
+        let c = gen_mode4(&mut r);
+        out.emit(&c, &exec(&c));
+    }
     let mut rng9 = Rng::new(seed ^ 0x9e37_79b9);
     for _ in 0..ncases / 8 {
         let mut r = rng9.fork();
